@@ -231,6 +231,30 @@ func TestCopyRows(t *testing.T) {
 	core.MarkExhaustive("copyrows (1..3 columns x 6 field counts x 4 field encodings x header x split)")
 }
 
+// TestTLSFaults enumerates every raw read and write call of a complete TLS
+// session as the point where the transport starts failing.
+func TestTLSFaults(t *testing.T) {
+	if shard, _ := core.Shard(); shard != 0 {
+		return
+	}
+	kinds := []string{"eof", "closed", "timeout", "reset"}
+	n := 0
+	for _, min13 := range []bool{false, true} {
+		_, reads, writes := runTLSFault(TLSFault{Min13: min13})
+		core.RunCase(t, "tlsfaults", TLSFault{Min13: min13}, RunTLSFault)
+		for k := 1; k <= reads+1; k++ {
+			n++
+			core.RunCase(t, "tlsfaults", TLSFault{Min13: min13, Fault: &memnet.Fault{ReadCall: k, Kind: kinds[n%4]}}, RunTLSFault)
+		}
+		for k := 1; k <= writes+1; k++ {
+			n++
+			core.RunCase(t, "tlsfaults", TLSFault{Min13: min13, Fault: &memnet.Fault{WriteCall: k, Kind: kinds[n%4]}}, RunTLSFault)
+		}
+	}
+	core.Count("tls-fault-positions-enumerated", n)
+	core.MarkExhaustive("tlsfaults (every raw read call and write call of a full TLS session, TLS1.2 and TLS1.3 minimum)")
+}
+
 func TestAlloc(t *testing.T) {
 	if shard, _ := core.Shard(); shard != 0 {
 		return
@@ -303,6 +327,9 @@ func FuzzFresh(f *testing.F) {
 
 func TestReplay(t *testing.T) {
 	core.Replay(t, map[string]func(Case) core.Result{"copyrows": runLabelled, "fresh": runLabelled, "session": runLabelled, "faults": runLabelled, "fuzz-session": runLabelled, "fuzz-fresh": runLabelled})
+}
+func TestReplayTLS(t *testing.T) {
+	core.Replay(t, map[string]func(TLSFault) core.Result{"tlsfaults": RunTLSFault})
 }
 func TestReplayAlloc(t *testing.T) {
 	core.Replay(t, map[string]func(Alloc) core.Result{"alloc": RunAlloc})
